@@ -3,6 +3,7 @@ import Gtree.Lemmas.GoStrings
 import Gtree.Model.Parser
 import Gtree.Model.Split
 import Gtree.Model.Spread
+import Gtree.Model.Grow
 import Gtree.Model.MkOps
 /-
   The definitions translated from /repo's sources (`Generated/Source.lean`, regenerated on every run)
@@ -546,5 +547,60 @@ theorem verifyOne_decision (fs : FS) (target : Bytes) (strict : Bool) (vs : List
   rw [verifier_handleErr_src]
   simp only [verifyOne, h]
   split <;> rfl
+
+
+/-! ### `Node.validatePath` -/
+
+/-- the Go node of one grown visit, as far as `validatePath` reads it -/
+def visitNode (v : Visit) : Src.Node :=
+  { name := v.name, hierarchy := (v.level : Int), index := 0, brnch := ⟨v.branch, v.path⟩, children := [] }
+
+/-- the model's validation errors as the `fmt.Errorf` values of node.go -/
+def verrSrc : VErr → Src.Err
+  | .invalidName n => .Errorf [105, 110, 118, 97, 108, 105, 100, 32, 110, 111, 100, 101, 32, 110, 97, 109, 101, 58, 32, 37, 115] [n]   -- "invalid node name: %s"
+  | .invalidPath p => .Errorf [105, 110, 118, 97, 108, 105, 100, 32, 112, 97, 116, 104, 58, 32, 37, 115] [p]        -- "invalid path: %s"
+
+theorem containsAny_slash (n : Bytes) : strings_ContainsAny n [0x2F] = n.contains slash := by
+  unfold strings_ContainsAny
+  rw [Bool.eq_iff_iff]
+  simp only [List.any_eq_true, List.contains_iff_mem, List.mem_singleton, slash]
+  constructor
+  · rintro ⟨b, hb, rfl⟩; exact hb
+  · intro h; exact ⟨_, h, rfl⟩
+
+/-- **`Node.validatePath` of node.go is the model's `validateVisit`**: the name must be one path element (not empty,
+    not "." or "..", no slash), then the joined path must be valid for io/fs; the first failure is the error, with
+    the offending name / path in it. (`v.level = 1 → v.path = v.name`: a root's path is its name.) -/
+theorem validatePath_src (v : Visit) (hroot : v.level = 1 → v.path = v.name) :
+    Src.Node.validatePath (visitNode v) = (validateVisit v).map verrSrc := by
+  have hpath : Src.Node.path (visitNode v) = v.path := by
+    unfold Src.Node.path Src.Node.isRoot visitNode
+    simp only [Src.rootHierarchyNum]
+    by_cases h1 : v.level = 1
+    · have : (((v.level : Nat) : Int) == 1) = true := by rw [h1]; rfl
+      simp [this, hroot h1]
+    · have : (((v.level : Nat) : Int) == 1) = false := by
+        simp only [beq_eq_false_iff_ne, ne_eq]; omega
+      simp [this]
+  unfold Src.Node.validatePath validateVisit
+  rw [hpath]
+  have hname : (visitNode v).name = v.name := rfl
+  simp only [hname, containsAny_slash, fs_ValidPath]
+  have hse : (((v.name == ([] : Bytes)) || (v.name == ([0x2E] : Bytes))) || (v.name == ([0x2E, 0x2E] : Bytes)) || v.name.contains slash) = !singleElem v.name := by
+    unfold singleElem
+    have e1 : (v.name == ([] : Bytes)) = v.name.isEmpty := by cases v.name <;> rfl
+    have e2 : (v.name != [dot]) = !(v.name == ([0x2E] : Bytes)) := rfl
+    have e3 : (v.name != dotdot) = !(v.name == ([0x2E, 0x2E] : Bytes)) := rfl
+    rw [e1, e2, e3]
+    cases v.name.isEmpty <;> cases (v.name == ([0x2E] : Bytes)) <;> cases (v.name == ([0x2E, 0x2E] : Bytes)) <;> cases v.name.contains slash <;> rfl
+  rw [hse]
+  by_cases h1 : singleElem v.name = true
+  · simp only [h1, Bool.not_true, Bool.false_eq_true, if_false]
+    by_cases h2 : fsValidPath v.path = true
+    · simp [h2]
+    · have : fsValidPath v.path = false := by simpa using h2
+      simp only [this, Bool.not_false, if_true, Option.map_some, verrSrc]
+  · have : singleElem v.name = false := by simpa using h1
+    simp only [this, Bool.not_false, if_true, Option.map_some, verrSrc]
 
 end Gtree
